@@ -1,4 +1,4 @@
-import SamVerif.Model.Backends
+import SamVerif.Model.BackendsEnum
 import Driver.Util
 /-! Protocol `backends` (C04): one micro-operation per line, answered by both back-end models.
 A leading `!` (the harness' "compile this line as its own program" flag) is ignored here. -/
@@ -155,6 +155,40 @@ def step (_ : Unit) (line : String) : Unit × String :=
       let wOf (l : List Int) : WVec := l.foldl (fun w v => (wasmVecStep id w (.push v)).1) WVec.empty
       s!"v{tsVecEq false a b},v{tsVecEq false b a},v{tsVecEq true a a} v{wasmVecEq false (wOf a) (wOf b)},v{wasmVecEq false (wOf b) (wOf a)},v{wasmVecEq true (wOf a) (wOf a)}"
     | _, _ => "bad-op"
+  | ["enum", shape, idx, a, b] =>
+    -- enum shapes of the harness: (variant name, field types: true = pointer-only type (Box))
+    let shapes : List (List (String × List Bool)) :=
+      [[("A", []), ("B", []), ("C", [true])],
+       [("A", []), ("B", [false]), ("C", [false, false]), ("D", [])],
+       [("P", [false]), ("Q", [false, false])],
+       [("A", []), ("B", [true]), ("C", [true])],
+       [("P", [true])]]
+    match shape.toNat?, idx.toNat?, a.toInt?, b.toInt? with
+    | some sh, some k, some a, some b =>
+      match shapes[sh - 1]? with
+      | none => "bad-op"
+      | some vs =>
+        match vs[k]? with
+        | none => "bad-op"
+        | some (_, tys) =>
+          let L := layout (vs.map (·.2))
+          let args : List Int := [a, b].take tys.length
+          let fields : List JsV := (args.zip tys).map fun (x, isBox) => if isBox then .arr 9 [.num x] else .num x
+          let v : EVal := match L[k]? with
+            | some .int31 => .tag k
+            | some .unboxed => .payload k 7 [.num a]
+            | _ => .box k 7 fields
+          let order := List.range vs.length
+          let showArm (o : Option Nat) : String := match o with
+            | none => "nomatch"
+            | some j => match vs[j]? with
+              | none => "?"
+              | some (name, tys) => "_".intercalate (name :: (([a, b].take tys.length).map toString))
+          let run (ord : List Nat) (test : Nat → Bool) : String := showArm (firstArm test ord)
+          let tsT := fun j => tsTest L j (tsRep v)
+          let wT := fun j => (wasmTest L j (wasmRepE v)).getD false
+          s!"s{run order tsT}|{run order.reverse tsT} s{run order wT}|{run order.reverse wT}"
+    | _, _, _, _ => "bad-op"
   | ["veq", a, b] =>
     match parseElems a, parseElems b with
     | some a, some b =>
